@@ -23,6 +23,28 @@ DEFAULT_NOTE = ("Trusted: rustc nightly MIR at mir-opt-level=0 and its callee re
                 "(listed in DESIGN.md §3 'Does not decide') is not claimed.")
 
 
+TECHNIQUE = {
+    "C01": "static analysis: MIR CFG/dominator rules on the matching cascade (call order, window interval from branch and iterator-pipeline guards, ratio dataflow, same-security guards)",
+    "C02": "static analysis: MIR dataflow on the acquisition ledger (availability term, debit/claim provenance per matching leg, relational unit discipline of claims)",
+    "C03": "static analysis: MIR term provenance of allowable cost (unit cost x matched quantity per leg, same-day weights, cost offsets written only by apportioning)",
+    "C04": "static analysis: MIR symbolic terms of the report builders (proceeds/gain identities, netting fold, exemption provenance per summary, group keys)",
+    "C05": "static analysis: MIR CFG rules (holding guard dominates matching, error edges, remainder test, debit per leg); one known finding recorded",
+    "C06": "static analysis: canonical-order dataflow over MIR (sort keys, same-day totals, grouping containers, date selection)",
+    "C07": "static analysis: MIR path predicates on date comparisons (tax-year interval), constructor range checks, sibling-builder agreement, compile_fail witnesses",
+    "C08": "static analysis: MIR term of the Transaction->GbpTransaction conversion (field-wise converter provenance, rate key = the line's own month, None edges return Err)",
+    "C09": "static analysis: guard analysis over MIR (ticker equality dominates every cross-transaction use; upper-casing provenance of stored and queried tickers)",
+    "C10": "static analysis: relational unit discipline of split ratios in MIR terms (multiply on SPLIT, divide on UNSPLIT, sell-time vs buy-time units)",
+    "C11": "static analysis: writer/provenance rules on lot cost adjustments (apportioning weights and guards, who writes offsets, error construction)",
+    "C12": "static analysis: bounded look-ahead (loop exit guards), which workspace code receives the pre-pass result, control dependence on cost offsets",
+    "C15": "static analysis: may-panic site enumeration over the extended call graph with guard recognisers; output-after-success ordering; validator table; PDF overwrite guard",
+    "C16": "static analysis: hash-order escape analysis (HashMap iteration to output), sort-key totality, symbolic string synthesis of formatters",
+    "C17": "static analysis: symbolic string synthesis of the amount formatters, rounding-mode constants, exact-quantity provenance, float-conversion reachability",
+    "C18": "static analysis: match exhaustiveness, effect synthesis of the converter row loop (per row kind: rows pushed, counters, exits), symbolic strings within the grammar, taint to comment lines",
+    "C19": "static analysis: region shape rules on the awards lookup (7-day look-back, map building, RSU arm provenance) over MIR",
+    "C20": "static analysis: call-graph effect rules (no statics / file system / environment in tools), panic reachability, lookup predicates, audit table",
+}
+
+
 def main():
     checks = []
     na = []
@@ -53,7 +75,7 @@ def main():
                 "design_ref": meta.get("design_ref", f"DESIGN.md §3 {pid}"),
             },
             "level_note": meta.get("level_note", DEFAULT_NOTE),
-            "technique": meta.get("technique", "static analysis: custom MIR dataflow/CFG rules (rustc_private driver)"),
+            "technique": meta.get("technique") or TECHNIQUE.get(pid, "static analysis: custom MIR dataflow/CFG rules (rustc_private driver)"),
         })
         for e in meta.get("engines", ["mirfacts", "rules"]):
             engines_used.setdefault(e, []).append(pid)
